@@ -1085,3 +1085,139 @@ func isNoescapeShape(e ast.Expr) bool {
 	lit, ok := core.Unparen(be.Y).(*ast.BasicLit)
 	return ok && lit.Value == "0"
 }
+
+// ---- C07.R10 a one-word clear is gated by one-word kinds only ----
+
+// Where a decoder resets its destination by storing nil into one machine word (`**(**unsafe.Pointer)(&p) = nil`,
+// `*(*unsafe.Pointer)(p) = nil`) under a flag field computed at construction, the flag may be true only for kinds
+// whose whole value is that word: pointer, map, chan, func, unsafe.Pointer. For a string, slice or interface the
+// second word (length, dynamic value) would survive: a reused backing-array slot keeps the old length with a nil
+// data pointer, and the next access faults or shows stale content.
+func c07r10(rc *core.RC) {
+	p := rc.P
+	oneWord := map[string]bool{"Ptr": true, "Pointer": true, "Map": true, "Chan": true, "Func": true, "UnsafePointer": true}
+	type gate struct {
+		field types.Object
+		pos   token.Pos
+		fn    string
+	}
+	var gates []gate
+	isWordNilStore := func(info *types.Info, st ast.Stmt) bool {
+		as, ok := st.(*ast.AssignStmt)
+		if !ok || len(as.Lhs) != 1 || len(as.Rhs) != 1 {
+			return false
+		}
+		if id, ok := core.Unparen(as.Rhs[0]).(*ast.Ident); !ok || id.Name != "nil" {
+			return false
+		}
+		star, ok := core.Unparen(as.Lhs[0]).(*ast.StarExpr)
+		if !ok {
+			return false
+		}
+		t := info.TypeOf(as.Lhs[0])
+		return t != nil && t.String() == "unsafe.Pointer" && star != nil
+	}
+	for _, fd := range p.Funcs("decoder") {
+		if fd.Body == nil {
+			continue
+		}
+		info := p.Info(fd)
+		fn := p.FuncName(fd)
+		ast.Inspect(fd.Body, func(x ast.Node) bool {
+			ifs, ok := x.(*ast.IfStmt)
+			if !ok {
+				return true
+			}
+			sel, ok := core.Unparen(ifs.Cond).(*ast.SelectorExpr)
+			if !ok {
+				return true
+			}
+			obj := info.Uses[sel.Sel]
+			v, isVar := obj.(*types.Var)
+			if !isVar || !v.IsField() {
+				return true
+			}
+			for _, st := range ifs.Body.List {
+				if isWordNilStore(info, st) {
+					gates = append(gates, gate{obj, ifs.Pos(), fn})
+					break
+				}
+			}
+			return true
+		})
+	}
+	seen := map[types.Object]bool{}
+	n := 0
+	for _, g := range gates {
+		n++
+		rc.Touch(g.fn)
+		if seen[g.field] {
+			continue
+		}
+		seen[g.field] = true
+		// initialisations of the field: composite literal entries and assignments
+		inits := 0
+		for _, fd := range p.Funcs("decoder") {
+			if fd.Body == nil {
+				continue
+			}
+			info := p.Info(fd)
+			fn := p.FuncName(fd)
+			check := func(e ast.Expr, pos token.Pos) {
+				inits++
+				key := fmt.Sprintf("%s/%s one-word-kinds-only", fn, g.field.Name())
+				var bad, unknown []string
+				var kinds []string
+				for _, d := range disjuncts(e) {
+					d = core.Unparen(d)
+					be, ok := d.(*ast.BinaryExpr)
+					if !ok || be.Op != token.EQL {
+						unknown = append(unknown, core.Src(p.Fset, d))
+						continue
+					}
+					ksel, ok := core.Unparen(be.Y).(*ast.SelectorExpr)
+					if !ok {
+						ksel, ok = core.Unparen(be.X).(*ast.SelectorExpr)
+					}
+					if !ok || info.TypeOf(ksel) == nil || info.TypeOf(ksel).String() != "reflect.Kind" {
+						unknown = append(unknown, core.Src(p.Fset, d))
+						continue
+					}
+					kinds = append(kinds, ksel.Sel.Name)
+					if !oneWord[ksel.Sel.Name] {
+						bad = append(bad, ksel.Sel.Name)
+					}
+				}
+				switch {
+				case len(bad) > 0:
+					rc.Bad(key, pos, "the flag that gates a one-word nil store is true for kind %s, whose value is wider than a word: the words behind the first (length, dynamic value) survive the reset of a reused slot", strings.Join(bad, ", "))
+				case len(unknown) > 0:
+					rc.Unknown(key, pos, "the flag that gates a one-word nil store is computed from %s, not from comparisons with reflect kinds", strings.Join(unknown, "; "))
+				default:
+					rc.OK(key, pos, "the flag is true for kinds %s only, each one word wide", strings.Join(kinds, ", "))
+				}
+			}
+			ast.Inspect(fd.Body, func(x ast.Node) bool {
+				switch v := x.(type) {
+				case *ast.KeyValueExpr:
+					if id, ok := v.Key.(*ast.Ident); ok && info.Uses[id] == g.field {
+						check(v.Value, v.Pos())
+					}
+				case *ast.AssignStmt:
+					for i, l := range v.Lhs {
+						if sel, ok := core.Unparen(l).(*ast.SelectorExpr); ok && info.Uses[sel.Sel] == g.field && len(v.Rhs) == len(v.Lhs) {
+							check(v.Rhs[i], v.Pos())
+						}
+					}
+				}
+				return true
+			})
+		}
+		if inits == 0 {
+			rc.Unknown(fmt.Sprintf("%s/%s one-word-kinds-only", g.fn, g.field.Name()), g.pos, "no initialisation of the flag found")
+		}
+	}
+	if n < 4 {
+		rc.Unknown("decoder/one-word-clears", token.NoPos, "found %d flag-gated one-word nil stores (confirmed: 4)", n)
+	}
+}
